@@ -72,7 +72,8 @@ PROPS["C16"] = {
         "replies and the 'unsupported' text) are re-read from /repo and net/http/status.go on every run. net/http itself is NOT modelled: "
         "the theorems are about the calls made on the http.ResponseWriter interface, for every behaviour of that writer; what a real "
         "net/http server does with them (status line once, chunking, buffering, a header set after the first flush being ignored) is outside. "
-        "A writer reached through plain http.Flusher cannot report flush failures (Flush() has no result): for such writers 'the first flush "
+        "The cases through a real net/http server are a smoke test that the recording writer is representative (a real http.response offers "
+        "both Flush and FlushError), with no failure injection. A writer reached through plain http.Flusher cannot report flush failures (Flush() has no result): for such writers 'the first flush "
         "error is returned' is vacuous and the harness records those flushes as successful. http.Error's own three calls are mirrored from "
         "the Go toolchain in use (one Content-Type set, WriteHeader, one Write). A header assignment cannot be intercepted on a real "
         "http.Header map: the harness logs 'Header() was called' with the Content-Type found at the next call, consecutive Header() calls "
@@ -86,7 +87,8 @@ PROPS["C16"] = {
         "ServeHTTP: product of 11 writer shapes x 9 Last-Event-Id header variants (absent, empty, plain, with LF, with CR, several, empty "
         "first, NUL/space) x 8 OnSession variants (nil, topics, empty topics, reject with/without own status, accept with own status) x 6 "
         "provider behaviours (nil / error before sending / after sending / flush only) x failure positions (sampled in the quick tier), plus "
-        "seeded random requests. non-trivial = distinct inputs (every one runs against the real Session / Server)"),
+        "seeded random requests; 150 / 2000 random message/call sequences through a real net/http server and client on the loopback "
+        "interface (status, Content-Type and whole body as the client receives them; key real-server, or real-server:unavailable). non-trivial = distinct inputs (every one runs against the real Session / Server)"),
     "assumptions": [
         "errors returned by the writer are non-nil values (script_ok); messages have an int64 Retry (WriteTo does not panic: retry_digits_fit)",
         "the Unwrap chain of the ResponseWriter is finite",
